@@ -104,3 +104,18 @@ func vhReadyLoad(s *Server) bool {
 	vgate("Load")
 	return s.loadedAndReady.Load()
 }
+
+// spin lock atomics behind the schedule gate (native replay of VH_C07_spinlock_*)
+func vhSpinLoad(l *rwspinlock) int32 {
+	vgate("Load")
+	return l.state.Load()
+}
+func vhSpinCAS(l *rwspinlock, old, new int32) bool {
+	vgate("CompareAndSwap")
+	return l.state.CompareAndSwap(old, new)
+}
+func vhSpinAdd(l *rwspinlock, d int32) int32 {
+	vgate("Add")
+	return l.state.Add(d)
+}
+func vhSpinGosched() { vwait() }
